@@ -160,16 +160,37 @@ var rFormattable = &Rule{
 			}
 			n++
 			ok := false
-			if mi, isMI := ret.Results[0].(*ssa.MakeInterface); isMI {
-				if al, isAl := mi.X.(*ssa.Alloc); isAl && types.Identical(sx.Deref(al.Type()), ef) {
-					for _, r := range *al.Referrers() {
-						if fa, isFA := r.(*ssa.FieldAddr); isFA {
-							for _, u := range *fa.Referrers() {
-								if st, isSt := u.(*ssa.Store); isSt && st.Addr == ssa.Value(fa) && st.Val == ssa.Value(fn.Params[0]) {
-									ok = true
-								}
+			// a fresh *errorFormatter holding errV
+			freshAdapter := func(v ssa.Value, errV ssa.Value) bool {
+				al, isAl := v.(*ssa.Alloc)
+				if !isAl || !types.Identical(sx.Deref(al.Type()), ef) {
+					return false
+				}
+				for _, r := range *al.Referrers() {
+					if fa, isFA := r.(*ssa.FieldAddr); isFA {
+						for _, u := range *fa.Referrers() {
+							if st, isSt := u.(*ssa.Store); isSt && st.Addr == ssa.Value(fa) && st.Val == errV {
+								return true
 							}
 						}
+					}
+				}
+				return false
+			}
+			if mi, isMI := ret.Results[0].(*ssa.MakeInterface); isMI {
+				if freshAdapter(mi.X, fn.Params[0]) {
+					ok = true
+				} else if call, isCall := mi.X.(*ssa.Call); isCall {
+					// an unexported constructor helper that receives the error and returns the fresh adapter
+					if h := sx.Callee(call); h != nil && h.Blocks != nil && h.Pkg == fn.Pkg && !sx.Exported(h) && len(call.Call.Args) == 1 && call.Call.Args[0] == ssa.Value(fn.Params[0]) && len(h.Params) == 1 {
+						all := true
+						rets := sx.Returns(h)
+						for _, hr := range rets {
+							if len(hr.Results) != 1 || !freshAdapter(hr.Results[0], h.Params[0]) {
+								all = false
+							}
+						}
+						ok = all && len(rets) > 0
 					}
 				}
 			}
